@@ -93,7 +93,7 @@ Definition s_IUEIMAGE : str := Eval compute in lit "IUEIMAGE".
 Definition s_T        : str := Eval compute in lit "T".
 Definition s_typeString : str := Eval compute in lit "Spline Coefficient Table".   (* fitsio.h: typeString *)
 End Lits.
-Import Lits.
+Export Lits.
 
 Fixpoint str_eqb (a b : str) : bool :=
   match a, b with
